@@ -46,6 +46,11 @@ func (f *frame) call(ins ssa.Instruction, c *ssa.CallCommon) Val {
 				return f.opaqueResult(resT)
 			}
 			u.eng.trustedUsed[key] = true
+			if rt, ok := recv.(Term); ok && rt.T.K == KIface && len(u.devirtFor(key)) > 0 {
+				if v, ok := f.devirtualiseWith(rt, it, c, args[1:], resT, ins, ct, key); ok {
+					return v
+				}
+			}
 			return f.contractCall(ct, key, nil, args, resT, ins)
 		}
 		if rt, ok := recv.(Term); ok && rt.T.K == KIface {
@@ -91,7 +96,15 @@ func (f *frame) callFn(fn *ssa.Function, bindings []Val, args []Val, resT *types
 		u.eng.opaqueUsed[key] = true
 		return f.opaqueResult(resT)
 	}
-	if ct != nil && !ct.Inline {
+	forceInline := false
+	if top := u.eng.contracts[u.name]; top != nil {
+		for _, n := range top.Inlines {
+			if n == key {
+				forceInline = true
+			}
+		}
+	}
+	if ct != nil && !ct.Inline && !forceInline {
 		if ct.Trusted {
 			u.eng.trustedUsed[key] = true
 		}
@@ -101,7 +114,7 @@ func (f *frame) callFn(fn *ssa.Function, bindings []Val, args []Val, resT *types
 		}
 		return f.contractCall(ct, key, fn, args, resT, ins)
 	}
-	if u.eng.canInline(fn, ct) {
+	if u.eng.canInline(fn, ct) || (forceInline && fn.Blocks != nil && len(findLoops(fn)) == 0) {
 		u.eng.inlinedUsed[key] = true
 		res, st, retc := u.execFunc(fn, args, bindings, f.cur, f.curReach, false, ct)
 		f.cur = st
@@ -241,7 +254,9 @@ func (f *frame) contractCallEnv(ct *Contract, key string, fn *ssa.Function, extr
 		f.checkNil(args[0], "receiver of "+key)
 	}
 	for i, r := range ct.Requires {
-		t := env.evalBool(r.X)
+		genv := *env
+		genv.asGoal = true
+		t := genv.evalBool(r.X)
 		u.oblige(f.key, "pre", shortKey(key)+"."+clauseName(r, i), f.curReach, t, "requires "+r.Src+" at call of "+key+" "+f.pos(ins), r.Tag)
 	}
 	// frame: apply modifies
@@ -346,6 +361,20 @@ func (f *frame) contractCallEnv(ct *Contract, key string, fn *ssa.Function, extr
 				inner := u.fresh("fresh_arr")
 				u.items = append(u.items, fmt.Sprintf("(declare-const %s (Array Int %s))", inner, u.tc.smt(es)))
 				u.setHeap(f.cur, hn, hs, sto(h, r, Term{inner, nil}))
+			case KRef:
+				el := u.pointee(ft)
+				r := u.alloc(f.cur, ft.T.Go)
+				if stt, ok := el.Underlying().(*types.Struct); ok {
+					for i := 0; i < stt.NumFields(); i++ {
+						hn, hs, fs := u.fieldHeapName(el, i)
+						h := u.heap(f.cur, hn, hs)
+						v := u.declare("fresh_"+stt.Field(i).Name(), fs)
+						if fs.K == KSlice {
+							u.assume(u.wfSlice(v))
+						}
+						u.setHeap(f.cur, hn, hs, sto(h, r, v))
+					}
+				}
 			}
 		}
 	}
@@ -538,10 +567,18 @@ func cbHeaps(u *Unit) []string {
 	u.eng.heapSorts["G.cb_a0_len"] = "(Array Int Int)"
 	u.eng.heapSorts["G.cb_a1_"+sanitize("(_ BitVec 32)")] = "(Array Int (_ BitVec 32))"
 	u.eng.heapSorts["G.cb_n"] = "Int"
-	var out []string
-	for h := range u.eng.heapSorts {
+	out := []string{"G.cb_fn", "G.cb_a0_arr", "G.cb_a0_off", "G.cb_a0_len", "G.cb_a1_" + sanitize("(_ BitVec 32)")}
+	for h := range u.heapNames {
 		if strings.HasPrefix(h, "G.cb_") && h != "G.cb_n" {
-			out = append(out, h)
+			dup := false
+			for _, o := range out {
+				if o == h {
+					dup = true
+				}
+			}
+			if !dup {
+				out = append(out, h)
+			}
 		}
 	}
 	sort.Strings(out)
@@ -742,6 +779,29 @@ func (f *frame) loopSpec(li *loopInfo) *LoopSpec {
 // source name, otherwise the closest dominating definition recorded by a DebugRef.
 func (f *frame) localResolver(at *ssa.BasicBlock) func(string) (Val, bool) {
 	return func(name string) (Val, bool) {
+		// name$N : the loop-carried variable `name` of loop N (for enclosing loops with equally named variables)
+		if i := strings.LastIndex(name, "$"); i > 0 {
+			var ord int
+			if _, err := fmt.Sscanf(name[i+1:], "%d", &ord); err == nil {
+				for _, li := range f.loops {
+					if li.ordinal != ord {
+						continue
+					}
+					for _, ins := range li.header.Instrs {
+						phi, ok := ins.(*ssa.Phi)
+						if !ok {
+							break
+						}
+						if phi.Comment == name[:i] {
+							if v, ok := f.vals[phi]; ok {
+								return v, true
+							}
+						}
+					}
+				}
+				return nil, false
+			}
+		}
 		for _, ins := range at.Instrs {
 			phi, ok := ins.(*ssa.Phi)
 			if !ok {
@@ -819,6 +879,7 @@ func (f *frame) loopHeader(li *loopInfo) {
 	}
 	// 1. invariant holds on entry
 	env := f.invEnv(li.header, f.cur)
+	env.asGoal = true
 	for i, inv := range ls.Invariants {
 		t := env.evalBool(inv.X)
 		u.oblige(f.key, "inv", fmt.Sprintf("L%d.%s.init", li.ordinal, clauseName(inv, i)), f.curReach, t, "loop invariant on entry: "+inv.Src, inv.Tag)
@@ -911,6 +972,14 @@ func (f *frame) loopHeader(li *loopInfo) {
 	env2 := f.invEnv(li.header, f.cur)
 	for _, inv := range ls.Invariants {
 		u.assume(implies(f.curReach, env2.evalBool(inv.X)))
+		// the same clause in goal form (one variant per quantifier): a back edge that leaves every symbol of
+		// the clause untouched is then discharged syntactically
+		g := *env2
+		g.asGoal = true
+		if u.assumedText == nil {
+			u.assumedText = map[string]bool{}
+		}
+		u.assumedText[g.evalBool(inv.X).S] = true
 	}
 	if ls.Decreases != nil {
 		d := env2.evalInt(ls.Decreases.X)
@@ -949,8 +1018,13 @@ func (f *frame) backEdge(from, to *ssa.BasicBlock, cond Term) {
 		f.vals[phi] = v
 	}
 	env := f.invEnv(to, f.cur)
+	env.asGoal = true
 	for i, inv := range ls.Invariants {
 		t := env.evalBool(inv.X)
+		if u.assumedText[t.S] {
+			// literally the formula assumed at the loop header (nothing it mentions changed on this path)
+			t = mkBool(true)
+		}
 		u.oblige(f.key, "inv", fmt.Sprintf("L%d.%s.step", li.ordinal, clauseName(inv, i)), cond, t, "loop invariant preserved: "+inv.Src, inv.Tag)
 	}
 	if ls.Decreases != nil {
@@ -1093,7 +1167,7 @@ func (u *Unit) scanMods(fn *ssa.Function, inScope func(*ssa.BasicBlock) bool, ad
 
 func (u *Unit) scanCallMods(c *ssa.CallCommon, add func(string, ssa.Value, bool), depth int) {
 	all := func() {
-		for h := range u.eng.heapSorts {
+		for h := range u.heapNames {
 			if strings.HasPrefix(h, "G.glob.") {
 				continue
 			}
@@ -1101,6 +1175,32 @@ func (u *Unit) scanCallMods(c *ssa.CallCommon, add func(string, ssa.Value, bool)
 		}
 	}
 	modsOfContract := func(ct *Contract, fn *ssa.Function) {
+		// copy-in / copy-out of interior pointer arguments: the callee's effect on *param lands in the heap
+		// that holds the argument's target; fresh(*param) re-versions the element heap of a slice target
+		if fn != nil {
+			for k, a := range c.Args {
+				if k >= len(fn.Params) {
+					break
+				}
+				pt, ok := fn.Params[k].Type().Underlying().(*types.Pointer)
+				if !ok {
+					continue
+				}
+				switch a.(type) {
+				case *ssa.IndexAddr, *ssa.FieldAddr:
+					u.addrHeaps(a, add)
+				}
+				if st, ok := pt.Elem().Underlying().(*types.Slice); ok {
+					for _, e := range ct.Ensures {
+						if len(freshArgs(e.X)) > 0 {
+							hn, hs, _ := u.elemHeapName(st.Elem())
+							u.eng.heapSorts[hn] = hs
+							add(hn, nil, false)
+						}
+					}
+				}
+			}
+		}
 		for _, m := range ct.Modifies {
 			x := m.X
 			switch x.Op {
@@ -1118,7 +1218,7 @@ func (u *Unit) scanCallMods(c *ssa.CallCommon, add func(string, ssa.Value, bool)
 					add("GF."+x.Tok, nil, false)
 				}
 				// struct field heaps with that field name
-				for h := range u.eng.heapSorts {
+				for h := range u.heapNames {
 					if strings.HasPrefix(h, "H.") && strings.HasSuffix(h, "."+x.Tok) {
 						add(h, nil, false)
 					}
@@ -1194,10 +1294,8 @@ func (u *Unit) scanCallMods(c *ssa.CallCommon, add func(string, ssa.Value, bool)
 	fn := c.StaticCallee()
 	if fn == nil {
 		// callback
-		for h := range u.eng.heapSorts {
-			if strings.HasPrefix(h, "G.cb_") {
-				add(h, nil, false)
-			}
+		for _, h := range cbHeaps(u) {
+			add(h, nil, false)
 		}
 		add("G.cb_n", nil, false)
 		add("G.cb_fn", nil, false)
@@ -1220,6 +1318,41 @@ func (u *Unit) scanCallMods(c *ssa.CallCommon, add func(string, ssa.Value, bool)
 		return
 	}
 	all()
+}
+
+// addrHeaps marks the heap(s) behind an address value (field / element path) as modified.
+func (u *Unit) addrHeaps(addr ssa.Value, add func(string, ssa.Value, bool)) {
+	switch a := addr.(type) {
+	case *ssa.FieldAddr:
+		if inner, ok := a.X.(*ssa.FieldAddr); ok {
+			u.addrHeaps(inner, add)
+			return
+		}
+		if inner, ok := a.X.(*ssa.IndexAddr); ok {
+			u.addrHeaps(inner, add)
+			return
+		}
+		pt := a.X.Type().Underlying().(*types.Pointer).Elem()
+		hn, hs, _ := u.fieldHeapName(pt, a.Field)
+		u.eng.heapSorts[hn] = hs
+		add(hn, nil, false)
+	case *ssa.IndexAddr:
+		switch xt := a.X.Type().Underlying().(type) {
+		case *types.Slice:
+			hn, hs, _ := u.elemHeapName(xt.Elem())
+			u.eng.heapSorts[hn] = hs
+			add(hn, nil, false)
+		case *types.Pointer:
+			if inner, ok := a.X.(*ssa.FieldAddr); ok {
+				u.addrHeaps(inner, add)
+				return
+			}
+			at := xt.Elem().Underlying().(*types.Array)
+			hn, hs, _ := u.elemHeapName(at.Elem())
+			u.eng.heapSorts[hn] = hs
+			add(hn, nil, false)
+		}
+	}
 }
 
 func (u *Unit) addFieldHeapsByName(fn *ssa.Function, field string, add func(string, ssa.Value, bool)) {
@@ -1334,12 +1467,23 @@ func (f *frame) runDefers() {
 // devirtualise: a method call on an interface whose implementations are all inside the repository is
 // executed per dynamic type (case split on the type tag); that the tag is one of them is an obligation.
 func (f *frame) devirtualise(recv Term, it types.Type, c *ssa.CallCommon, args []Val, resT *types.Tuple, ins ssa.Instruction) (Val, bool) {
+	return f.devirtualiseWith(recv, it, c, args, resT, ins, nil, "")
+}
+
+// devirtualiseWith: with a fallback contract the case split is partial: the listed in-repository
+// implementations are executed as themselves, every other dynamic type by the abstract interface contract.
+func (f *frame) devirtualiseWith(recv Term, it types.Type, c *ssa.CallCommon, args []Val, resT *types.Tuple, ins ssa.Instruction, fallback *Contract, fbKey string) (Val, bool) {
 	u := f.u
 	iface, ok := it.Underlying().(*types.Interface)
 	if !ok {
 		return nil, false
 	}
-	impls := u.eng.implementations(iface)
+	var impls []types.Type
+	if fallback != nil {
+		impls = u.devirtFor(fbKey)
+	} else {
+		impls = u.eng.implementations(iface)
+	}
 	if len(impls) == 0 {
 		return nil, false
 	}
@@ -1383,7 +1527,16 @@ func (f *frame) devirtualise(recv Term, it types.Type, c *ssa.CallCommon, args [
 		sts = append(sts, f.cur)
 		ress = append(ress, res)
 	}
-	u.oblige(f.key, "safe.dispatch", "", reach0, or(tagOK...), f.pos(ins)+" dynamic type of the "+types.TypeString(it, nil)+" value is one of the in-repository implementations", "")
+	if fallback != nil {
+		f.cur = st0.clone()
+		f.curReach = u.define(f.key+"_dynother", and(reach0, not(or(tagOK...))))
+		res := f.contractCall(fallback, fbKey, nil, append([]Val{recv}, args...), resT, ins)
+		conds = append(conds, f.curReach)
+		sts = append(sts, f.cur)
+		ress = append(ress, res)
+	} else {
+		u.oblige(f.key, "safe.dispatch", "", reach0, or(tagOK...), f.pos(ins)+" dynamic type of the "+types.TypeString(it, nil)+" value is one of the in-repository implementations", "")
+	}
 	f.cur = u.mergeStates(conds, sts)
 	f.curReach = u.define(f.key+"_dynret", or(conds...))
 	// merge results
@@ -1408,4 +1561,14 @@ func (f *frame) devirtualise(recv Term, it types.Type, c *ssa.CallCommon, args [
 		}
 	}
 	return out, true
+}
+
+// devirtFor: implementations that are executed as themselves for calls through the given interface method,
+// globally or for the function under verification only.
+func (u *Unit) devirtFor(key string) []types.Type {
+	out := append([]types.Type(nil), u.eng.partialDevirt[key]...)
+	if ct := u.eng.contracts[u.name]; ct != nil && ct.Devirt != nil {
+		out = append(out, ct.Devirt[key]...)
+	}
+	return out
 }
